@@ -51,6 +51,12 @@ CONFIGS = {
                         drop=2, t3=1, maxnet=3),
     # one reliable + one partially reliable (rtx 0) ordered channel, PR message larger than the window share
     "pr-tiny": Config("pr-tiny", MIX, [(2, [1200, 10]), (1, [10]), (2, [10])], drop=1, t3=1, maxnet=3),
+    # two retransmit-limited ordered streams: FORWARD-TSN with entries for several streams
+    "pr-back": Config("pr-back", {1: dict(sid=1, ordered=True, maxRtx=-1), 2: dict(sid=2, ordered=True, maxRtx=0),
+                                   3: dict(sid=3, ordered=True, maxRtx=0)},
+                      [(2, [10]), (3, [10]), (2, [10]), (2, [10])], drop=2, t3=1, maxnet=3),
+    # a lost FORWARD-TSN
+    "pr-fwdloss": Config("pr-fwdloss", MIX, [(2, [10]), (1, [10])], drop=2, t3=2, maxnet=3),
     "pr-small": Config("pr-small", MIX, [(2, [1200, 10]), (1, [10]), (2, [10]), (1, [1200, 10])], drop=1, t3=1, maxnet=3),
     "pr-big": Config("pr-big", MIX, [(2, [1200, 1200, 1200, 1200, 10]), (1, [1200, 10]), (2, [10])], drop=2, t3=1, maxnet=3),
     "pr-mix": Config("pr-mix", MIXU, [(2, [1200, 10]), (3, [1200, 10]), (1, [10]), (3, [10]), (2, [10])],
@@ -115,6 +121,9 @@ class LockStep:
         self.mid_of_msg = {}
         self.steps = 0
         self.mismatch = None
+        # (with rtx-limited channels a message sent after Heal may still be abandoned when the
+        #  loss-free network reorders it by three or more positions - fast retransmit counts as a
+        #  retransmission - so model sends are recovery probes only when the act says so)
 
     def _settle(self):
         env = self.env
@@ -164,7 +173,8 @@ class LockStep:
         op = act["op"]
         if op == "send":
             ch, frags = self.cfg.msgs[act["m"] - 1]
-            self.mid_of_msg[act["m"]] = env.send("A", self.tok[ch], sum(frags), "bytes")
+            # a message sent after the network healed must be delivered (C06 recovery / C02)
+            self.mid_of_msg[act["m"]] = env.send("A", self.tok[ch], sum(frags), "bytes", probe=bool(act.get("probe")))
         elif op in ("deliver", "dup", "drop"):
             pkt = self.find(act["p"])
             if pkt is None:
@@ -245,7 +255,7 @@ class LockStep:
                 return "rcv.streams[%s] model=%s code=%s" % (sd, mr["streams"][sd], cr["streams"].get(sd))
         return None
 
-    def run(self, behaviour, drain=True):
+    def run(self, behaviour, drain=True, probe=True):
         """behaviour: [(action name, state)] from TLC; returns the recorded trace dict."""
         matched = 0
         for action, state in behaviour[1:]:
@@ -264,7 +274,7 @@ class LockStep:
         if drain:
             env.heal_and_drain()
             # C06 recovery probe / C02: traffic flows again on every open channel
-            for c in sorted(self.cfg.chans):
+            for c in sorted(self.cfg.chans) if probe else []:
                 chobj = env.chan[self.tok[c]]
                 if chobj["A"].readyState == "open" and chobj["B"] is not None:
                     env.send("A", self.tok[c], 10, "bytes", probe=True)
@@ -272,6 +282,134 @@ class LockStep:
             env.quiesce()
         pr = any(v["maxRtx"] >= 0 for v in self.cfg.chans.values())
         return {"events": env.events, "pr": pr, "matched": matched, "steps": self.steps,
+                "mismatch": self.mismatch, "ops": [], "origin": [None, None]}
+
+    def close(self):
+        self.env.close()
+
+
+# --------------------------------------------------------------------------- handshake model
+
+HS_INV = ["Agreement", "NoDeadSetup", "TimerOnlyInSetup", "DataArrives"]
+HS_WIT = ["W_NeverEstablished", "W_NeverGaveUp", "W_NoRetransmission"]
+
+
+def hs_cfg(retrans, drop, dup, data, dev=(), inv=HS_INV, props=("ReceiveStateMonotone",), spec="Spec"):
+    lines = ["SPECIFICATION " + spec, "CONSTANTS", " MaxInitRetrans = %d" % retrans, " MaxDrop = %d" % drop,
+             " MaxDup = %d" % dup, " MaxData = %d" % data, " Dev = {%s}" % ", ".join('"%s"' % d for d in dev),
+             "VIEW View"]
+    lines += ["INVARIANT " + i for i in inv]
+    lines += ["PROPERTY " + x for x in props]
+    lines.append("CHECK_DEADLOCK FALSE")
+    return "\n".join(lines) + "\n"
+
+
+class HandshakeLockStep:
+    """Replays a behaviour of SctpHandshake.tla (MaxInitRetrans = 8 as in the code) into a real pair."""
+
+    ST_A = {"CLOSED": None, "COOKIE_WAIT": "cookieWait", "COOKIE_ECHOED": "cookieEchoed", "ESTABLISHED": "established"}
+
+    def __init__(self, origin_a=None, origin_b=None):
+        self.env = Env(origin_a, origin_b)
+        env = self.env
+        self.base = env.S.tsn_minus_one(env.ep["A"]._local_tsn)
+        spec = dict(label="neg", protocol="", ordered=True, negotiated=True, id=3)
+        self.tok = env.create("A", **spec)
+        env.create("B", pair=self.tok, **spec)
+        self.started = False
+        self.steps = 0
+        self.matched = 0
+        self.mismatch = None
+
+    def rel(self, tsn):
+        return 0 if tsn is None else (tsn - self.base) % 2 ** 32
+
+    def find(self, k, n):
+        env = self.env
+        S = env.S
+        cls = {"INIT": S.InitChunk, "INITACK": S.InitAckChunk, "ECHO": S.CookieEchoChunk, "ACK": S.CookieAckChunk,
+               "DATA": S.DataChunk}[k]
+        for pkt in env.net:
+            try:
+                ch = S.parse_packet(pkt["data"])[3][0]
+            except Exception:
+                continue
+            if type(ch) is cls and (k != "DATA" or (pkt["src"] == "A" and self.rel(ch.tsn) == n)):
+                return pkt
+        return None
+
+    def apply(self, act):
+        env = self.env
+        op = act["op"]
+        if op == "start":
+            env.start("AB")
+            self.started = True
+        elif op == "data":
+            if env.send("A", self.tok, 10, "bytes") is None:
+                return False
+        elif op in ("deliver", "dup", "drop"):
+            pkt = self.find(act["k"], act["n"])
+            if pkt is None:
+                return False
+            if op == "deliver":
+                env.deliver(pkt)
+            elif op == "dup":
+                env.deliver(pkt, keep=True)
+            else:
+                env.drop(pkt)
+        elif op == "t1":
+            ts = [h for side, name, h in env.timers("A") if name == "_t1_expired"]
+            if not ts:
+                return False
+            env.fire(ts[0])
+        elif op == "heal":
+            env.healed = True
+            env.ev(k="heal")
+        return True
+
+    def project(self):
+        a, b = self.env.ep["A"], self.env.ep["B"]
+        ast = a._association_state.name
+        if ast == "CLOSED":
+            st = "closed" if self.started else "closed0"
+        else:
+            st = self.ST_A.get(ast, ast)
+        chunk = {None: "none", "InitChunk": "INIT", "CookieEchoChunk": "ECHO"}.get(
+            type(a._t1_chunk).__name__ if a._t1_chunk is not None else None, "?")
+        pa = {"st": st, "t1": a._t1_handle is not None, "fails": a._t1_failures, "chunk": chunk}
+        pb = {"st": "established" if b._association_state.name == "ESTABLISHED" else "closed",
+              "rtsn": self.rel(b._last_received_tsn), "mis": sorted(self.rel(x) for x in b._sack_misordered)}
+        return pa, pb
+
+    def run(self, behaviour):
+        for action, state in behaviour[1:]:
+            act = state["act"]
+            if not self.apply(act):
+                self.mismatch = self.mismatch or ("step %d: model action %s not applicable to the code" % (self.steps + 1, act))
+                break
+            self.steps += 1
+            if self.mismatch is None:
+                pa, pb = self.project()
+                ma, mb = state["a"], state["b"]
+                d = None
+                for k in ("st", "t1", "chunk"):
+                    if ma[k] != pa[k]:
+                        d = "a.%s model=%s code=%s" % (k, ma[k], pa[k])
+                if ma["st"] != "closed" and min(ma["fails"], 9) != min(pa["fails"], 9):
+                    d = "a.fails model=%s code=%s" % (ma["fails"], pa["fails"])
+                if mb["st"] != pb["st"] or mb["rtsn"] != pb["rtsn"] or sorted(mb["mis"]) != pb["mis"]:
+                    d = "b model=%s code=%s" % (mb, pb)
+                if d is None:
+                    self.matched += 1
+                else:
+                    self.mismatch = "step %d (%s): %s" % (self.steps, act["op"], d)
+        env = self.env
+        env.heal_and_drain()
+        if env.ep["A"].state == "connected":
+            env.send("A", self.tok, 10, "bytes", probe=True)
+            env.heal_and_drain()
+        env.quiesce()
+        return {"events": env.events, "pr": False, "matched": self.matched, "steps": self.steps,
                 "mismatch": self.mismatch, "ops": [], "origin": [None, None]}
 
     def close(self):
